@@ -1,6 +1,8 @@
 //! Level A: marginfi::utils::calculate_pre_fee_spl_deposit_amount on a real Token-2022 mint with a
 //! TransferFeeConfig extension, and the SPL library fee for the returned amount.
-//! case: bps max_fee post_amount      out: `<pre> <fee(pre)>` | NONE | PANIC
+//! case: bps max_fee post_amount [old_bps old_max epoch_new epoch]      out: `<pre> <fee(pre)>` | NONE | PANIC
+//!   with the optional tokens the mint carries a PENDING fee change (older schedule from epoch 0, (bps, max_fee) from
+//!   epoch_new), marginfi is asked in `epoch` and the fee is what the mint's own config charges in that epoch.
 use crate::sim::{mk_mint, TokenProgram, World};
 use crate::util::*;
 use anchor_lang::prelude::AccountInfo;
@@ -13,21 +15,30 @@ pub fn run(line: &str) -> String {
     let post = t.u64();
     let mut w = World::new();
     let mint = mk_mint(&mut w, 6, TokenProgram::T22WithFee { bps, max_fee });
+    let mut epoch = 0u64;
+    if !t.done() {
+        let old = (t.u16(), t.u64());
+        let epoch_new = t.u64();
+        epoch = t.u64();
+        crate::sim::set_fee_schedule(&mut w, &mint, old, (bps, max_fee), epoch_new);
+    }
     let acct = w.account(&mint).unwrap();
     let mut lamports = acct.lamports;
     let mut data = acct.data.clone();
+    let data_copy = acct.data.clone();
     let owner = acct.owner;
     guarded(|| {
         let ai = AccountInfo::new(&mint, false, false, &mut lamports, &mut data, &owner, false, 0);
-        match marginfi::utils::calculate_pre_fee_spl_deposit_amount(ai, post, 0) {
+        // what the token program will charge: the mint's own config in this epoch (read before the call borrows the data)
+        let charged: TransferFee = {
+            use spl_token_2022::extension::{transfer_fee::TransferFeeConfig, BaseStateWithExtensions, StateWithExtensions};
+            let st = StateWithExtensions::<spl_token_2022::state::Mint>::unpack(&data_copy).unwrap();
+            *st.get_extension::<TransferFeeConfig>().unwrap().get_epoch_fee(epoch)
+        };
+        match marginfi::utils::calculate_pre_fee_spl_deposit_amount(ai, post, epoch) {
             Err(e) => err_tok(&e),
             Ok(pre) => {
-                let tf = TransferFee {
-                    epoch: 0.into(),
-                    maximum_fee: max_fee.into(),
-                    transfer_fee_basis_points: bps.into(),
-                };
-                match tf.calculate_fee(pre) {
+                match charged.calculate_fee(pre) {
                     Some(fee) => format!("{} {}", pre, fee),
                     None => "NONE".into(),
                 }
